@@ -433,10 +433,106 @@ def r14d(ctx, run):
                   "answers for `x`: the reference type-checks as a mutable reference to `x`, and writes through it change a copy" % desc)
 
 
+def r14e(ctx, run):
+    """field paths: get_mutability evaluated WITH its own recursion on model bodies.  A field in the middle of a path that is a pointer is dereferenced
+    by the next `.field` (auto-deref): writing `h.point.x` writes through `point`, so it needs `point : ^mut _` - whatever `h` is - and a path of
+    by-value fields is as mutable as its root.  (The decision table of R14.b looks at one step; the flag it passes down is only right if every level
+    asks again.)"""
+    from symint import SymInterp
+    from absint import Obj, Term, Variant, Panic, CannotEstablish, _Return
+    V = Variant
+    fn = ctx.syn.fn("GlobalInferenceCtx::get_mutability", "hir_ty/src/globals.rs")
+
+    class TyM:
+        def __init__(self, name, ptr=None, file=False):
+            self.name, self.ptr, self.file = name, ptr, file
+
+    def evaluate(bodies, tys, locals_, params, start):
+        class RI(SymInterp):
+            def eval(self, e, env):
+                if e.get("k") == "index":
+                    base = canon(e["e"])
+                    if base == "self.bodies":
+                        key = self.eval(e["i"], env)
+                        if isinstance(key, Term) and key.op.startswith("l"):
+                            return locals_[key]
+                        return bodies.get(key, V("Expr::Missing"))
+                    if base == "self.tys[self.loc]":
+                        return tys[self.eval(e["i"], env)]
+                    if base == "self.param_tys":
+                        return Obj("ParamTy", ty=params[self.eval(e["i"], env)])
+                if e.get("k") in ("ref",) or (e.get("k") == "un" and e.get("op") in ("*", "&")):
+                    return self.eval(e["e"], env)
+                if e.get("k") == "cast":
+                    return self.eval(e["e"], env)
+                return super().eval(e, env)
+
+            def default_method(self, recv, m, args, e):
+                if isinstance(recv, Obj) and recv.name == "self" and m == "get_mutability":
+                    return self.inline(fn, args, recv=recv)
+                if isinstance(recv, TyM):
+                    if m == "is_pointer":
+                        return recv.ptr is not None
+                    if m == "as_pointer":
+                        return None if recv.ptr is None else (recv.ptr == "mut", Term("sub"))
+                    if m in ("as_ref", "absolute_ty"):
+                        return V("Ty::File", {"0": Term("file")}) if recv.file else V("Ty::Other")
+                if m == "map" and len(args) == 1 and (recv is None or isinstance(recv, tuple)):
+                    return None if recv is None else self.call_closure(args[0], [recv])
+                if m == "unwrap_or":
+                    return args[0] if recv is None else recv
+                if isinstance(recv, (Term, Obj)) and m in ("range_for_expr", "range_info", "file", "lookup"):
+                    return Term(m)
+                return super().default_method(recv, m, args, e)
+        it = RI(funcs={"Some": lambda i, a: a[0]})
+        selfo = Obj("self", bodies=Term("bodies"), tys=Term("tys"), loc=Term("loc"), world_index=Term("wi"), interner=Term("interner"), param_tys=Term("pt"))
+        try:
+            r = it.inline(fn, [start, True, False], recv=selfo)
+        except _Return as rr:
+            r = rr.v
+        return r.last if isinstance(r, Variant) else repr(r)
+    lit = V("Expr::StructLiteral", {"ty": None, "members": []})
+    n = 0
+    for root_desc, root_mut in (("a `:=` local", True), ("a `::` local", False)):
+        for ptr in ("mut", "const", None):
+            for depth in (1, 2):
+                # l(.h)*.point.x : the by-value prefix has `depth-1` fields, then the (pointer or by-value) field `point`, then `x`
+                E = [Term("e%d" % i) for i in range(depth + 3)]
+                l1 = Term("l1")
+                bodies = {E[0]: V("Expr::Local", {"0": l1}), Term("elit"): lit}
+                tys = {E[0]: TyM("Holder")}
+                for i in range(1, depth + 2):
+                    bodies[E[i]] = V("Expr::Member", {"previous": E[i - 1], "name": Obj("NameWithRange", name=Term("f%d" % i), range=Term("r%d" % i))})
+                    tys[E[i]] = TyM("S%d" % i)
+                tys[E[depth]] = TyM("point", ptr=ptr)      # the field before the last one
+                tys[E[depth + 1]] = TyM("i32")
+                locals_ = {l1: Obj("LocalDef", mutable=root_mut, value=Term("elit"), range=Term("lr"))}
+                path = "l" + "".join(".f%d" % i for i in range(1, depth)) + ".point.x"
+                desc = "%s with l %s and point : %s" % (path, root_desc, {"mut": "^mut P", "const": "^P", None: "P (by value)"}[ptr])
+                try:
+                    got = evaluate(bodies, tys, locals_, {}, E[depth + 1])
+                except (Panic, CannotEstablish) as c:
+                    run.finding(fn.qual, "field-path:" + desc, fn.file, fn.ln, "cannot establish the mutability of %s: %s" % (desc, getattr(c, "what", c)))
+                    continue
+                n += 1
+                if ptr == "mut":
+                    want_mutable = True
+                elif ptr == "const":
+                    want_mutable = False
+                else:
+                    want_mutable = root_mut
+                run.check((got == "Mutable") == want_mutable, fn.site(), "%s -> %s" % (desc, got), fn.qual, "field-path:" + desc, fn.file, fn.ln,
+                          "assigning to %s is answered %s; it must be %s: a pointer field in the middle of a path is dereferenced by the next field access and decides by its own "
+                          "type (`^mut` or not), a path of by-value fields is as mutable as its root" % (desc, got, "Mutable" if want_mutable else "an immutability diagnostic"))
+    if n < 10:
+        raise LookupError("field paths evaluated: %d" % n)
+
+
 def rules(ctx):
     return [
         Rule("R14.a", "assignment and `^mut` reference consult get_mutability with the right arguments and reject on any diagnostic", 7, r14a),
         Rule("R14.b", "immutable roots: `::` local, parameter, global, file member (decision table of get_mutability)", 40, r14b),
+        Rule("R14.e", "field paths through pointer fields: get_mutability evaluated with its own recursion (a middle pointer field decides by its own type)", 10, r14e),
         Rule("R14.d", "`^mut (x)` points at `x`: forms get_mutability looks through are looked through by the code generator's Ref arm", 3, r14d),
         Rule("R14.c", "Mutable through a dereference only behind a `^mut` pointer type; deref/index/paren recursion flags", 20, r14c),
     ]
